@@ -394,6 +394,32 @@ class DCFamilySwitched(DCFamilyBase):
   items: Any = ('now', 'a', 'plain', 'default')
 
 
+@dataclasses.dataclass
+class DCInitVar(RecObj):
+  """A dataclass with an InitVar pseudo-field: a parameter with a default, but no field."""
+  a: Any = 1
+  scale: dataclasses.InitVar[Any] = 'iv-default'
+  b: Any = 'ivb'
+
+  def __post_init__(self, scale):
+    self._record({'a': self.a, 'b': self.b, 'scale': scale})
+
+  __repr__ = RecObj.__repr__
+  __eq__ = object.__eq__
+  __hash__ = object.__hash__
+
+
+class DCWithOwnInit(DCFamilyBase):
+  """A plain subclass of a dataclass with a hand-written __init__ and its own defaults."""
+
+  def __init__(self, a=7, extra='own-default', *, flag=False):
+    super().__init__(a=a)
+    self._record({'a': a, 'extra': extra, 'flag': flag})
+
+  def __post_init__(self):
+    pass
+
+
 def make_default_variant(d):
   """Function objects created by ONE nested def (one code object) whose defaults differ."""
 
